@@ -10,6 +10,7 @@ history's records; `Sim.run_validOps`: the operations are valid when the submitt
 Every history theorem of C01–C04, C06, C08 therefore applies to every market of every simulation.
 -/
 import PamsLemmas.SimLemmas
+import PamsLemmas.SimTrace
 import PamsLemmas.AccountLemmas
 import PamsProps.C01
 import PamsProps.C03
@@ -317,6 +318,59 @@ theorem sim_every_fill_notified_twice (po : Nat → PriceOps P) (ms : Markets) (
   exact (run_fresh po ms price fund0 cfgs tapes).2
 
 end C11
+
+/-! ### C13 / C10 — hook dispatches and records, one per occurrence, over a whole run -/
+namespace C13
+
+/-- **Over a whole simulation every occurrence triggers exactly one dispatch of its kind, in
+order**: the before-order dispatches carry the same sequence of order references as the
+`_add_order` calls, the before-cancel dispatches as the `_cancel_order` calls, the after-order /
+after-cancel dispatches as the owners' notifications (i.e. the accepted ones), and the
+after-execution dispatches carry exactly the fills `0 … N−1` the ledger was updated with. -/
+theorem sim_hooks_paired (po : Nat → PriceOps P) (ms : Markets) (price : Nat → P)
+    (fund0 : Nat → Option P) (cfgs : List SessionCfg) (tapes : List (List (StepTape P))) :
+    let tr := (Sim.run po ms price fund0 cfgs tapes).out.tr
+    tr.flatMap hookOrderBeforeRef = tr.flatMap addRef ∧
+    tr.flatMap hookCancelBeforeRef = tr.flatMap cancelRef ∧
+    tr.flatMap hookOrderAfterRef = tr.flatMap cbSubmittedRef ∧
+    tr.flatMap hookCancelAfterRef = tr.flatMap cbCanceledRef ∧
+    tr.flatMap hookExecRef = tr.flatMap ledgerRef :=
+  paired_of_built (run_built po ms price fund0 cfgs tapes)
+
+theorem ledgerRef_eq (tr : List Ev) : tr.flatMap ledgerRef = ledgerRefs tr := by
+  induction tr with
+  | nil => rfl
+  | cons e es ih => cases e <;> simp [List.flatMap_cons, ledgerRef, ledgerRefs, ih]
+
+/-- the after-execution dispatches of a run name every fill exactly once -/
+theorem sim_exec_hook_once_per_fill (po : Nat → PriceOps P) (ms : Markets) (price : Nat → P)
+    (fund0 : Nat → Option P) (cfgs : List SessionCfg) (tapes : List (List (StepTape P))) :
+    (Sim.run po ms price fund0 cfgs tapes).out.tr.flatMap hookExecRef =
+      List.range (countFills (Sim.run po ms price fund0 cfgs tapes).recs) := by
+  rw [(sim_hooks_paired po ms price fund0 cfgs tapes).2.2.2.2, ledgerRef_eq]
+  exact C05.sim_every_fill_applied_once po ms price fund0 cfgs tapes
+
+end C13
+
+namespace C10
+
+/-- **One record per event over a whole run**: the order records written equal in number the
+accepted submissions (each notified to its owner), the cancel records the accepted cancellations,
+and the fill records the fills applied to the ledger. -/
+theorem sim_one_record_per_event (po : Nat → PriceOps P) (ms : Markets) (price : Nat → P)
+    (fund0 : Nat → Option P) (cfgs : List SessionCfg) (tapes : List (List (StepTape P))) :
+    nOrders (Sim.run po ms price fund0 cfgs tapes).recs =
+      ((Sim.run po ms price fund0 cfgs tapes).out.tr.flatMap cbSubmittedRef).length ∧
+    nCancels (Sim.run po ms price fund0 cfgs tapes).recs =
+      ((Sim.run po ms price fund0 cfgs tapes).out.tr.flatMap cbCanceledRef).length ∧
+    countFills (Sim.run po ms price fund0 cfgs tapes).recs =
+      (ledgerRefs (Sim.run po ms price fund0 cfgs tapes).out.tr).length := by
+  have h := run_logged po ms price fund0 cfgs tapes
+  refine ⟨h.1, h.2, ?_⟩
+  rw [C05.sim_every_fill_applied_once]
+  simp
+
+end C10
 
 /-! ### non-vacuity: a concrete two-agent simulation in which a trade happens -/
 namespace SimDemo
